@@ -197,7 +197,7 @@ class GrammarModel:
     def _splice_expansions(self, rule, depth):
         out = []
         for a in self.rules.get(rule, []):
-            if depth > 2 and any(c.kind == "splice" for c in a.children):
+            if depth > 1 and any(c.kind == "splice" for c in a.children):
                 continue
             cur = [[]]
             for c in a.children:
